@@ -292,9 +292,38 @@ func c13Scaling(c *Ctx, sx *symx.Ctx) {
 	home := fn
 	isCtx := func(v ssa.Value) bool { return optLoad(v, "ContextBoosts") }
 	var table *ssa.MakeMap
+	// every value that denotes the table: the make, a library clone of the
+	// context boosts (a verbatim copy made by the library), a merge of the two
+	roots := map[ssa.Value]bool{}
+	var cloneCopies []*ssa.Call
+	isCloneOfCtx := func(v ssa.Value) *ssa.Call {
+		call, ok := v.(*ssa.Call)
+		if ok && strings.HasPrefix(ssau.CallName(call), "maps.Clone") && len(call.Common().Args) == 1 && optLoad(call.Common().Args[0], "ContextBoosts") {
+			return call
+		}
+		return nil
+	}
 	switch t := tableUse.(type) {
 	case *ssa.MakeMap:
 		table = t
+	case *ssa.Phi:
+		ok := true
+		for _, e := range t.Edges {
+			if mk, isMk := e.(*ssa.MakeMap); isMk {
+				table = mk
+				roots[mk] = true
+			} else if cl := isCloneOfCtx(e); cl != nil {
+				cloneCopies = append(cloneCopies, cl)
+				roots[cl] = true
+			} else {
+				ok = false
+			}
+		}
+		if ok && table != nil {
+			roots[t] = true
+		} else {
+			table = nil
+		}
 	case *ssa.Call:
 		if g := t.Common().StaticCallee(); g != nil && c.P.IsRepoFunc(g) && len(g.Blocks) > 0 {
 			var mk *ssa.MakeMap
@@ -334,14 +363,47 @@ func c13Scaling(c *Ctx, sx *symx.Ctx) {
 	}
 	fLookup := f
 	f = sx.Of(home)
+	roots[table] = true
+	// helpers of the repository that are handed the table and do nothing
+	// with it but look up, update and measure it: their updates are examined
+	// like those written out in place
+	helperParam := map[ssa.Value]bool{}
+	helperOf := map[*ssa.Function]bool{}
+	isTbl := func(v ssa.Value) bool {
+		if roots[v] || helperParam[v] {
+			return true
+		}
+		mk := c13ResolveMake(v)
+		return mk != nil && roots[mk]
+	}
+	ssau.ForEachInstr(home, true, func(in ssa.Instruction) {
+		call, ok := in.(*ssa.Call)
+		if !ok {
+			return
+		}
+		g := call.Common().StaticCallee()
+		if g == nil || g.Parent() != nil || g.Blocks == nil || !c.P.IsRepoFunc(g) {
+			return
+		}
+		for i, a := range call.Common().Args {
+			if i < len(g.Params) && (roots[a] || (c13ResolveMake(a) != nil && roots[c13ResolveMake(a)])) && c13OnlyMapOps(g.Params[i]) {
+				helperParam[g.Params[i]] = true
+				helperOf[g] = true
+			}
+		}
+	})
 	// updates of the table: copies from ContextBoosts (range key/value) and guarded max updates
 	var copies, others []*ssa.MapUpdate
 	loops := ssau.RangeLoops(home)
 	var updates []*ssa.MapUpdate
 	bodies := append([]*ssa.Function{home}, home.AnonFuncs...)
+	for g := range helperOf {
+		bodies = append(bodies, g)
+	}
+	sort.Slice(bodies[1:], func(i, j int) bool { return bodies[1+i].Pos() < bodies[1+j].Pos() })
 	for _, b := range bodies {
 		ssau.ForEachInstr(b, false, func(in ssa.Instruction) {
-			if mu, ok := in.(*ssa.MapUpdate); ok && c13ResolveMake(mu.Map) == table {
+			if mu, ok := in.(*ssa.MapUpdate); ok && isTbl(mu.Map) {
 				updates = append(updates, mu)
 			}
 		})
@@ -363,19 +425,32 @@ func c13Scaling(c *Ctx, sx *symx.Ctx) {
 			others = append(others, mu)
 		}
 	}
-	var callCopies []*ssa.Call
+	callCopies := append([]*ssa.Call(nil), cloneCopies...)
 	carrierOwner, carrierField := "", ""
-	for _, ref := range *table.Referrers() {
+	var tableRefs []ssa.Instruction
+	for _, root := range sortedValues(roots) {
+		tableRefs = append(tableRefs, *root.Referrers()...)
+	}
+	for _, ref := range tableRefs {
 		switch x := ref.(type) {
 		case *ssa.MapUpdate, *ssa.Lookup, *ssa.Return, *ssa.DebugRef:
+		case *ssa.Phi:
+			if !roots[x] {
+				r.Bad("O-2", fk+"#boost-table-escapes", c.P.Pos(x.Pos()), "the boost table is merged with another map")
+			}
+		case *ssa.BinOp:
+			// termBoost == nil after the clone of a possibly absent map
+			if !(x.Op == token.EQL || x.Op == token.NEQ) || !(ssau.IsNilConst(x.X) || ssau.IsNilConst(x.Y)) {
+				r.Bad("O-2", fk+"#boost-table-escapes", c.P.Pos(x.Pos()), "the boost table escapes through "+x.String())
+			}
 		case *ssa.Store:
 			// kept in a local variable that a closure of the same function captures
-			if al, ok := x.Addr.(*ssa.Alloc); ok && x.Val == ssa.Value(table) && al.Parent() == home {
+			if al, ok := x.Addr.(*ssa.Alloc); ok && roots[x.Val] && al.Parent() == home {
 				continue
 			}
 			// or handed on in a field of a local scoring-pass object whose
 			// methods only look it up
-			if fa, ok := x.Addr.(*ssa.FieldAddr); ok && x.Val == ssa.Value(table) && carrierOwner == "" {
+			if fa, ok := x.Addr.(*ssa.FieldAddr); ok && roots[x.Val] && carrierOwner == "" {
 				if al, ok := fa.X.(*ssa.Alloc); ok && al.Parent() == home {
 					owner, field := ssau.FieldOwner(fa), ssau.FieldName(fa)
 					if why := c13FieldOnlyLookedUp(c, owner, field, x); why == "" {
@@ -390,7 +465,10 @@ func c13Scaling(c *Ctx, sx *symx.Ctx) {
 			r.Bad("O-2", fk+"#boost-table-escapes", c.P.Pos(x.Pos()), "the boost table is stored outside the function that builds it")
 		case *ssa.Call:
 			n := ssau.CallName(x)
-			if strings.HasPrefix(n, "maps.Copy") && len(x.Common().Args) == 2 && x.Common().Args[0] == ssa.Value(table) && isCtx(x.Common().Args[1]) {
+			if g := x.Common().StaticCallee(); g != nil && helperOf[g] {
+				continue // its updates are examined below
+			}
+			if strings.HasPrefix(n, "maps.Copy") && len(x.Common().Args) == 2 && roots[x.Common().Args[0]] && isCtx(x.Common().Args[1]) {
 				// maps.Copy(table, ContextBoosts): the verbatim copy, done by the library
 				callCopies = append(callCopies, x)
 				continue
@@ -417,6 +495,9 @@ func c13Scaling(c *Ctx, sx *symx.Ctx) {
 			ssau.ForEachInstr(home, false, func(in ssa.Instruction) {
 				if call, ok := in.(*ssa.Call); ok {
 					if mc, ok := call.Common().Value.(*ssa.MakeClosure); ok && mc.Fn == ssa.Value(body) {
+						anchors = append(anchors, call.Block())
+					}
+					if call.Common().StaticCallee() == body && helperOf[body] {
 						anchors = append(anchors, call.Block())
 					}
 				}
@@ -463,7 +544,7 @@ func c13Scaling(c *Ctx, sx *symx.Ctx) {
 			if !ok || !d.Then || op != token.LSS {
 				continue
 			}
-			if lk, ok := x.(*ssa.Lookup); ok && c13ResolveMake(lk.X) == table && bf.E(lk.Index) == bf.E(mu.Key) {
+			if lk, ok := x.(*ssa.Lookup); ok && isTbl(lk.X) && bf.E(lk.Index) == bf.E(mu.Key) {
 				if y == mu.Value || bf.E(y) == bf.E(mu.Value) {
 					guarded = true
 				}
@@ -488,7 +569,8 @@ func c13Scaling(c *Ctx, sx *symx.Ctx) {
 			atLeast1 = true
 			ssau.ForEachInstr(home, false, func(in ssa.Instruction) {
 				if call, ok := in.(*ssa.Call); ok {
-					if mc, ok := call.Common().Value.(*ssa.MakeClosure); ok && mc.Fn == ssa.Value(body) {
+					mc, isMc := call.Common().Value.(*ssa.MakeClosure)
+					if (isMc && mc.Fn == ssa.Value(body)) || (call.Common().StaticCallee() == body && helperOf[body]) {
 						n++
 						if cv, isC := ssau.ConstFloat(call.Common().Args[idx]); !isC || cv < 1 {
 							atLeast1 = false
@@ -1543,4 +1625,38 @@ func c13FieldOnlyLookedUp(c *Ctx, owner, field string, only *ssa.Store) string {
 		})
 	}
 	return why
+}
+
+// c13OnlyMapOps: parameter p (a map) is only looked up, updated and
+// measured in its function.
+func c13OnlyMapOps(p *ssa.Parameter) bool {
+	for _, ref := range *p.Referrers() {
+		switch x := ref.(type) {
+		case *ssa.Lookup:
+			if x.X != ssa.Value(p) {
+				return false
+			}
+		case *ssa.MapUpdate:
+			if x.Map != ssa.Value(p) {
+				return false
+			}
+		case *ssa.DebugRef:
+		case *ssa.Call:
+			if ssau.CallName(x) != "builtin.len" {
+				return false
+			}
+		default:
+			return false
+		}
+	}
+	return true
+}
+
+func sortedValues(set map[ssa.Value]bool) []ssa.Value {
+	var out []ssa.Value
+	for v := range set {
+		out = append(out, v)
+	}
+	sort.Slice(out, func(i, j int) bool { return out[i].Pos() < out[j].Pos() })
+	return out
 }
